@@ -221,7 +221,7 @@ func (e *Engine) builtin(name string, args []Value, ats []types.Type, g *Term, p
 			}
 			src = e.newSliceFrom(types.Typ[types.Uint8], elems)
 		default:
-			return Poison{"copy from poison"}
+			return Poison{why: "copy from poison"}
 		}
 		n := Ite(Cmp(OpULt, dst.len, src.len), dst.len, src.len)
 		ub := e.boundOf(n, "copy length", g, pos)
@@ -308,7 +308,10 @@ func (e *Engine) loadOr(r RefV) Value {
 		}
 	}
 	if val == nil {
-		return Poison{"load out of range"}
+		if e.trace {
+			e.logf("POISON load out of range at %s", e.pos(0))
+		}
+		return Poison{"load out of range at " + e.pos(0), true}
 	}
 	return val
 }
@@ -359,18 +362,43 @@ func (e *Engine) appendSlice(s SliceV, add SliceV, elemT types.Type, g *Term, po
 		if newCap < minGrowCap {
 			newCap = minGrowCap
 		}
-		nc := e.newArrayCell(elemT, newCap)
+		// Reuse, when possible, a backing array that only exists in executions disjoint from this growth (its
+		// allocation guard contradicts the growth guard): object identity is shared across mutually exclusive worlds,
+		// which keeps "conditional append in a loop" on a single array instead of one array per first-append iteration.
+		growG := And(g, Not(fit))
+		var nc *Cell
+		for _, a := range s.arr.alts {
+			A := a.o.(*Cell)
+			if A.allocG != nil && len(A.elems) >= ubL+ubK && A.appendGrown && And(A.allocG, growG).IsFalse() {
+				nc = A
+				break
+			}
+		}
+		reused := nc != nil
+		if reused {
+			setAllocG(nc, Or(nc.allocG, growG))
+			e.ReusedArrays++
+		} else {
+			nc = e.newArrayCell(elemT, newCap)
+			nc.appendGrown = true
+			setAllocG(nc, growG)
+		}
+		newCap = len(nc.elems)
+		wg := TS.True
+		if reused {
+			wg = growG
+		}
 		for i := 0; i < ubL; i++ {
 			r := e.elemRef(s.arr, BinBV(OpAdd, s.off, BV(64, uint64(i))))
 			if len(r.alts) == 0 {
 				continue
 			}
 			v := e.loadOr(r)
-			storeCell(nc.elems[i], Cmp(OpULt, BV(64, uint64(i)), L), v)
+			storeCell(nc.elems[i], And(wg, Cmp(OpULt, BV(64, uint64(i)), L)), v)
 		}
 		for j := 0; j < ubK; j++ {
 			p := BinBV(OpAdd, L, BV(64, uint64(j)))
-			inK := Cmp(OpULt, BV(64, uint64(j)), K)
+			inK := And(wg, Cmp(OpULt, BV(64, uint64(j)), K))
 			if p.IsConst() {
 				storeCell(nc.elems[p.val], inK, elems[j])
 				continue
@@ -393,3 +421,13 @@ func (e *Engine) appendSlice(s SliceV, add SliceV, elemT types.Type, g *Term, po
 // minGrowCap: a reallocating append allocates at least this capacity (the Go spec leaves growth to the
 // implementation; a generous allocator keeps later appends in place, which keeps slices single-array).
 const minGrowCap = 8
+
+func setAllocG(c *Cell, g *Term) {
+	c.allocG = g
+	for _, f := range c.fields {
+		setAllocG(f, g)
+	}
+	for _, el := range c.elems {
+		setAllocG(el, g)
+	}
+}
